@@ -472,6 +472,8 @@ static void _expect(int fd, char *str)
         res = xread(fd, p, len);
         if (res < 0)
            err_exit(true, "lost connection with server");
+        if (res == 0)
+           err_exit(false, "lost connection with server");
         p += res;
         *p = '\0';
         len -= res;
